@@ -345,6 +345,34 @@ func init() {
 				}
 				c13Case(c, cs)
 			}
+			// a list that grows past several capacity doublings and is emptied again: a pool of 20 items, histories
+			// that append most of them one by one, remove most of those, and go on
+			if kind != "IRIs" {
+				var big []bareItem
+				for k := 0; k < 20; k++ {
+					big = append(big, bareItem{[]string{"iri", "object", "actor", "activity"}[k%4], fmt.Sprintf("https://example.com/big/%d", k), []string{"", "Note", "Person", "Create"}[k%4]})
+				}
+				for i := 0; i < c.N(40, 1500); i++ {
+					var h [][]interface{}
+					perm := c.R.Perm(len(big))
+					n := 9 + c.R.Intn(len(big)-9)
+					for _, x := range perm[:n] {
+						h = append(h, []interface{}{"append", x})
+					}
+					keep := c.R.Intn(5)
+					for _, x := range c.R.Perm(n)[:n-keep] {
+						h = append(h, []interface{}{"remove", perm[x]})
+						if c.R.Chance(20) {
+							h = append(h, []interface{}{"count"})
+						}
+					}
+					for k := 0; k < 4; k++ {
+						x := c.R.Intn(len(big))
+						h = append(h, []interface{}{"contains", x}, []interface{}{"append", x}, []interface{}{"count"})
+					}
+					c13Case(c, collCase{Kind: kind, Pool: big, Init: []int{}, Ops: h, Distinct: true})
+				}
+			}
 			for i := 0; i < c.N(600, 20000); i++ {
 				pool := c13LoosePools[c.R.Intn(len(c13LoosePools))]
 				var h [][]interface{}
